@@ -446,6 +446,10 @@ func rootsFor(prop, tier string) []Root {
 		if thorough {
 			add("VH_C18_AddTwice", 3, 2)
 		}
+		add("VH_C18_SIDOrder", 2)
+		if thorough {
+			add("VH_C18_SIDOrder", 3)
+		}
 		add("VH_C18_AddSeq", 2)
 		add("VH_C18_AddSeq", 3)
 		if thorough {
